@@ -89,6 +89,9 @@ def run_stmt(key, backend, acc):
   if key in stmtfam.SIM_KNOWN_WRONG:
     acc.count("skipped_simulation_known_wrong")
     return "skipped"
+  if key in stmtfam.MAY_REFUSE_SIM:
+    acc.count("skipped_simulation_may_refuse")
+    return "skipped"
   if key in stmtfam.MAY_REJECT:
     import pymtl3.dsl.errors as dsl_errors
     try:
